@@ -39,11 +39,18 @@ void prop(const Case& cs) {
   uint64_t n = static_cast<uint64_t>(mult[nsel] * k);
   if (lg_k >= 11 && nsel == 3) n = (lg_k >= 13 ? 20 : 32) * k;  // keep the largest configurations affordable
   float p = (fam <= 1 && psel == 1 && nsel >= 1) ? 0.5f : 1.0f;
+  // unions of differently configured inputs: mix 1 = the second input has a smaller lg_k, mix 2 = the first one; the result has the
+  // accuracy of the smaller configuration (the union itself is built with the larger lg_k)
+  const int mix = uni ? static_cast<int>(static_cast<uint64_t>(cs.get("mix", 0)) % 3) : 0;
+  const int lg_small = std::max(fam == 0 ? 5 : 4, lg_k - 2);
+  const int lg_a = mix == 2 ? lg_small : lg_k, lg_c = mix == 1 ? lg_small : lg_k;
+  if (mix) k = 1ull << lg_small;
   double rse;
   bool estimating;
   if (fam <= 1) { rse = 1.0 / std::sqrt(static_cast<double>(k - 1)); estimating = n > k || p < 1.0f; }
-  else if (fam == 2) { rse = std::max(std::fabs(hll_sketch::get_rel_err(true, uni, static_cast<uint8_t>(lg_k), 1)), std::fabs(hll_sketch::get_rel_err(false, uni, static_cast<uint8_t>(lg_k), 1))); estimating = true; }
+  else if (fam == 2) { const uint8_t lg_eff = static_cast<uint8_t>(mix ? lg_small : lg_k); rse = std::max(std::fabs(hll_sketch::get_rel_err(true, uni, lg_eff, 1)), std::fabs(hll_sketch::get_rel_err(false, uni, lg_eff, 1))); estimating = true; }
   else { rse = (uni ? 0.6931 : 0.5887) / std::sqrt(static_cast<double>(k)); estimating = true; }
+  double truth = static_cast<double>(n);   // distinct items of a trial (changed by configurations that do not use the whole range)
   std::vector<Trial> trials;
   for (long t = 0; t < T; ++t) {
     uint64_t b = base + static_cast<uint64_t>(t) * (2 * n + 16);
@@ -52,7 +59,8 @@ void prop(const Case& cs) {
       auto a = update_theta_sketch::builder().set_lg_k(static_cast<uint8_t>(lg_k)).set_p(p).build();
       if (!uni) { for (uint64_t i = 0; i < n; ++i) a.update(b + i); tr.est = a.get_estimate(); for (int s = 0; s < 3; ++s) { tr.lb[s] = a.get_lower_bound(s + 1); tr.ub[s] = a.get_upper_bound(s + 1); } }
       else {
-        auto c = update_theta_sketch::builder().set_lg_k(static_cast<uint8_t>(lg_k)).set_p(p).build();
+        if (mix == 2) a = update_theta_sketch::builder().set_lg_k(static_cast<uint8_t>(lg_a)).set_p(p).build();
+        auto c = update_theta_sketch::builder().set_lg_k(static_cast<uint8_t>(lg_c)).set_p(p).build();
         for (uint64_t i = 0; i < n; ++i) { if (i < 2 * n / 3) a.update(b + i); if (i >= n / 3) c.update(b + i); }
         auto u = theta_union::builder().set_lg_k(static_cast<uint8_t>(lg_k)).build(); u.update(a); u.update(c);
         auto r = u.get_result(); tr.est = r.get_estimate(); for (int s = 0; s < 3; ++s) { tr.lb[s] = r.get_lower_bound(s + 1); tr.ub[s] = r.get_upper_bound(s + 1); }
@@ -65,7 +73,7 @@ void prop(const Case& cs) {
       target_hll_type ty = static_cast<target_hll_type>(tsel);
       if (!uni) { hll_sketch a(static_cast<uint8_t>(lg_k), ty); for (uint64_t i = 0; i < n; ++i) a.update(b + i); tr.est = a.get_estimate(); for (int s = 0; s < 3; ++s) { tr.lb[s] = a.get_lower_bound(s + 1); tr.ub[s] = a.get_upper_bound(s + 1); } }
       else {
-        hll_sketch a(static_cast<uint8_t>(lg_k), ty), c(static_cast<uint8_t>(lg_k), ty);
+        hll_sketch a(static_cast<uint8_t>(lg_a), ty), c(static_cast<uint8_t>(lg_c), ty);
         for (uint64_t i = 0; i < n; ++i) { if (i < 2 * n / 3) a.update(b + i); if (i >= n / 3) c.update(b + i); }
         hll_union u(static_cast<uint8_t>(lg_k)); u.update(a); u.update(c);
         tr.est = u.get_estimate(); for (int s = 0; s < 3; ++s) { tr.lb[s] = u.get_lower_bound(s + 1); tr.ub[s] = u.get_upper_bound(s + 1); }
@@ -76,15 +84,23 @@ void prop(const Case& cs) {
     } else {
       if (!uni) { cpc_sketch a(static_cast<uint8_t>(lg_k)); for (uint64_t i = 0; i < n; ++i) a.update(b + i); tr.est = a.get_estimate(); for (int s = 0; s < 3; ++s) { tr.lb[s] = a.get_lower_bound(s + 1); tr.ub[s] = a.get_upper_bound(s + 1); } }
       else {
-        cpc_sketch a(static_cast<uint8_t>(lg_k)), c(static_cast<uint8_t>(lg_k));
-        for (uint64_t i = 0; i < n; ++i) { if (i < 2 * n / 3) a.update(b + i); if (i >= n / 3) c.update(b + i); }
+        cpc_sketch a(static_cast<uint8_t>(lg_a)), c(static_cast<uint8_t>(lg_c));
+        if (!mix) { for (uint64_t i = 0; i < n; ++i) { if (i < 2 * n / 3) a.update(b + i); if (i >= n / 3) c.update(b + i); } }
+        else {
+          // the input with the smaller lg_k stays in sparse flavor (fewer than 3K/32 coupons) and overlaps with the other one
+          const uint64_t m = std::min<uint64_t>(2 * n / 3, (3ull << lg_small) / 32 - 2);
+          cpc_sketch& big = mix == 1 ? a : c; cpc_sketch& small = mix == 1 ? c : a;
+          for (uint64_t i = 0; i < 2 * n / 3; ++i) big.update(b + i);
+          for (uint64_t i = 0; i < m; ++i) small.update(b + n / 3 + i);
+          truth = static_cast<double>(std::max<uint64_t>(2 * n / 3, n / 3 + m));
+        }
         cpc_union u(static_cast<uint8_t>(lg_k)); u.update(a); u.update(c);
         cpc_sketch r = u.get_result(); tr.est = r.get_estimate(); for (int s = 0; s < 3; ++s) { tr.lb[s] = r.get_lower_bound(s + 1); tr.ub[s] = r.get_upper_bound(s + 1); }
       }
     }
     trials.push_back(tr);
   }
-  double dn = static_cast<double>(n);
+  double dn = truth;
   double mean = 0; for (auto& t : trials) mean += t.est / dn - 1.0; mean /= T;
   double var = 0; for (auto& t : trials) { double r = t.est / dn - 1.0 - mean; var += r * r; } var /= std::max<long>(1, T - 1);
   double sd = std::sqrt(var);
@@ -117,6 +133,7 @@ void prop(const Case& cs) {
   }
   vf::count("trials", static_cast<uint64_t>(T));
   vf::label(std::string("family:") + names[fam] + (uni ? "-union" : ""));
+  if (mix) vf::label("union-of-different-lg_k");
   vf::label(std::string("n=") + (nsel == 0 ? "k/2" : nsel == 1 ? "2k" : nsel == 2 ? "16k" : "128k"));
 }
 
@@ -124,7 +141,7 @@ rc::Gen<Case> gen() {
   using namespace vf;
   return make_case({{"fam", range(0, 3)}, {"lgk", rc::gen::weightedOneOf<int64_t>({{4, range(0, 0)}, {4, range(1, 1)}, {1, range(2, 2)}})},
                     {"n", rc::gen::weightedOneOf<int64_t>({{2, range(0, 1)}, {2, range(2, 2)}, {1, range(3, 3)}})},
-                    {"p", range(0, 1)}, {"union", range(0, 1)}, {"type", range(0, 2)}, {"base", range(1, 1 << 30)}},
+                    {"p", range(0, 1)}, {"union", range(0, 1)}, {"type", range(0, 2)}, {"base", range(1, 1 << 30)}, {"mix", pick({0, 0, 1, 2})}},
                    rc::gen::just(std::vector<Op>{}));
 }
 
